@@ -47,9 +47,24 @@ Theorem C07_refusal_keeps_state : forall (H : string -> string) (cf : cfg) pl r 
 Proof. exact refusal_keeps_state. Qed.
 Print Assumptions C07_refusal_keeps_state.
 
-(* success => the storage dropped exactly the presented token and created one fresh
-   token (id above every stored one), and the response carries that one *)
+(* a request is judged on what it carries itself: whatever the history before it (e.g. a
+   refresh by the token's client with its credentials immediately before), a refresh whose own
+   credential does not prove the client of the presented token is refused, nothing changes *)
+Theorem C07_unproven_refused : forall (H : string -> string) (cf : cfg) ops h s,
+  exec H cf ops = (h, s) ->
+  forall h1 e h2 pl cr n scopes r,
+    h = h1 ++ e :: h2 -> e_op e = TokenRefresh pl cr (Some n) scopes ->
+    find_rt (e_pre e) n = Some r -> cred_proves cf cr (r_client r) = false ->
+    is_tokens (e_out e) = false /\ e_post e = e_pre e.
+Proof. exact unproven_refused. Qed.
+Print Assumptions C07_unproven_refused.
+
+(* The storage decides what happens to the presented token (f_keep cf, the policy of
+   Storage.CreateAccessAndRefreshTokens): a ROTATING storage (f_keep = false) drops exactly the
+   presented token and creates one fresh token (id above every stored one), and the response
+   carries that one *)
 Theorem C07_rotation : forall (H : string -> string) (cf : cfg) ops h s,
+  f_keep cf = false ->
   exec H cf ops = (h, s) ->
   forall h1 e h2 pl cr rt scopes t,
     h = h1 ++ e :: h2 -> e_op e = TokenRefresh pl cr rt scopes -> e_out e = OTokens t ->
@@ -62,8 +77,39 @@ Theorem C07_rotation : forall (H : string -> string) (cf : cfg) ops h s,
 Proof. exact rotation. Qed.
 Print Assumptions C07_rotation.
 
+(* a NON-ROTATING storage (f_keep = true: the presented token is returned as the valid one):
+   the token stays stored under its id, now standing for the narrowed grant, no other refresh
+   token is touched, and the response carries that very token *)
+Theorem C07_keeps : forall (H : string -> string) (cf : cfg) ops h s,
+  f_keep cf = true ->
+  exec H cf ops = (h, s) ->
+  forall h1 e h2 pl cr rt scopes t,
+    h = h1 ++ e :: h2 -> e_op e = TokenRefresh pl cr rt scopes -> e_out e = OTokens t ->
+  exists n old new,
+    rt = Some n /\ t_rt t = Some n
+    /\ find_rt (e_pre e) n = Some old /\ find_rt (e_post e) n = Some new
+    /\ r_scopes new = t_scope t /\ subset (r_scopes new) (r_scopes old) = true
+    /\ r_client new = r_client old /\ r_sub new = r_sub old /\ r_aud new = r_aud old /\ r_auth new = r_auth old
+    /\ rtoks (e_post e) = new :: filter (fun x => negb (Nat.eqb (r_id x) n)) (rtoks (e_pre e)).
+Proof. exact keeps. Qed.
+Print Assumptions C07_keeps.
+
+(* whatever the policy: the response carries the refresh token under which the storage holds
+   the new grant after the exchange (scope = the response's scope); it differs from the
+   presented one exactly when the storage rotates *)
+Theorem C07_carries_storage_token : forall (H : string -> string) (cf : cfg) ops h s,
+  exec H cf ops = (h, s) ->
+  forall h1 e h2 pl cr rt scopes t,
+    h = h1 ++ e :: h2 -> e_op e = TokenRefresh pl cr rt scopes -> e_out e = OTokens t ->
+  exists m new, t_rt t = Some m /\ find_rt (e_post e) m = Some new
+    /\ r_scopes new = t_scope t /\ r_client new = t_azp t /\ r_sub new = t_at_sub t
+    /\ (f_keep cf = false -> rt <> Some m) /\ (f_keep cf = true -> rt = Some m).
+Proof. exact carries_storage_token. Qed.
+Print Assumptions C07_carries_storage_token.
+
 (* along any chain rt0 -> rt1 -> ... of refreshes in any history the scope only shrinks
-   and subject, audience, auth_time and client are preserved *)
+   and subject, audience, auth_time and client are preserved - under both storage policies (with
+   a non-rotating storage every later response obtained with the same token is a link) *)
 Theorem C07_monotone : forall (H : string -> string) (cf : cfg) ops h s,
   exec H cf ops = (h, s) ->
   forall t0 tk, refresh_chain h t0 tk ->
@@ -72,8 +118,9 @@ Theorem C07_monotone : forall (H : string -> string) (cf : cfg) ops h s,
 Proof. exact monotone. Qed.
 Print Assumptions C07_monotone.
 
-(* a rotated token fails, and the attempt changes nothing *)
+(* a rotated token fails, and the attempt changes nothing (rotating storage) *)
 Theorem C07_replay : forall (H : string -> string) (cf : cfg) ops h s,
+  f_keep cf = false ->
   exec H cf ops = (h, s) ->
   forall h1 e1 h2 e2 h3 n pl1 cr1 sc1 pl2 cr2 sc2,
     h = h1 ++ e1 :: h2 ++ e2 :: h3 ->
